@@ -39,8 +39,8 @@
 
 struct MacroData
 {
-  int8_t param_count; // number of macro parameters
-  int8_t name_len;    // length of the macro name
+  uint8_t param_count; // number of macro parameters
+  uint8_t name_len;    // length of the macro name (with its NUL, up to 255)
   int16_t value_len;  // length of the macro
   char data[];        // name[], value[]
 };
